@@ -30,7 +30,7 @@ from laneflow.build import K, P as Par, Cfg
 
 SAN = ('-fsanitize=signed-integer-overflow,shift,float-cast-overflow,integer-divide-by-zero,bounds,bool,enum', '-fsanitize-trap=all')
 HDR = ('glm/glm.hpp', 'glm/gtc/bitfield.hpp', 'glm/gtc/packing.hpp', 'glm/gtc/round.hpp', 'glm/gtc/integer.hpp', 'glm/ext/scalar_common.hpp', 'glm/ext/scalar_integer.hpp', 'glm/ext/vector_integer.hpp',
-       'glm/gtc/quaternion.hpp', 'glm/gtx/bit.hpp', 'glm/gtc/ulp.hpp', 'glm/gtc/type_precision.hpp', 'glm/gtc/color_space.hpp', 'glm/gtx/color_space_YCoCg.hpp')
+       'glm/gtc/quaternion.hpp', 'glm/gtx/bit.hpp', 'glm/gtc/ulp.hpp', 'glm/gtc/type_precision.hpp', 'glm/gtc/color_space.hpp', 'glm/gtx/color_space_YCoCg.hpp', 'glm/gtx/integer.hpp')
 CFG = Cfg('ubsan', headers=HDR, defines=('GLM_ENABLE_EXPERIMENTAL',), flags=SAN)
 CFG_PEEL = Cfg('ubsan_peel', headers=HDR, defines=('GLM_ENABLE_EXPERIMENTAL',), flags=SAN, peel=12)
 CFG_SWZ = Cfg('ubsan_swizzle', headers=HDR, defines=('GLM_ENABLE_EXPERIMENTAL', 'GLM_FORCE_SWIZZLE', 'GLM_FORCE_INTRINSICS'), flags=SAN + ('-msse2',))
@@ -152,6 +152,18 @@ def corpus(tier):
     for fn_, it_, ot in unpacks:
         # the half decoder renormalises subnormals in a loop of at most ten rounds: analysed with the loop peeled (a longer run would be reported as undecided)
         add(F(fn_, ot, [('p', it_, FULL)], '%s(p)' % fn_, cfg=CFG_PEEL if 'Half' in fn_ else None))
+    # gtx/integer: pow(x, k) for fixed exponents on the bases whose k-th power is representable (the loop runs k times: fully unrolled), floor_log2 / nlz on
+    # every positive value, mod with a non-zero divisor, factorial on its domain 0 .. 12
+    for kx in (1, 2, 3, 4, 5, 7, 8, 16, 30):
+        bi = int((2 ** 31 - 1) ** (1.0 / kx))
+        while (bi + 1) ** kx <= 2 ** 31 - 1:
+            bi += 1
+        while bi ** kx > 2 ** 31 - 1:
+            bi -= 1
+        add(F('gtx pow(int, %d)' % kx, 'int', [('x', 'int', (-bi, bi))], 'pow(x, %du)' % kx, cfg=CFG_PEEL if kx > 8 else None))
+    add(F('gtx mod(int, int)', 'int', [('x', 'int', (-(1 << 30), 1 << 30)), ('y', 'int', (1, 1 << 30))], 'mod(x, y)'))
+    add(F('gtx floor_log2', 'uint', [('x', 'uint', (1, (1 << 32) - 1))], 'floor_log2(x)'))
+    add(F('gtx nlz', 'uint', [('x', 'uint', (1, (1 << 32) - 1))], 'nlz(x)'))
     add(F('packRGBM', v4, [('v', v3, (0.0, 1e3))], 'packRGBM(v)'))
     add(F('packUnorm<uint8>(vec4)', G.vec(4, 'uint8'), [('v', v4, ANYF)], 'packUnorm<glm::uint8>(v)'))
     add(F('packSnorm<int16>(vec2)', G.vec(2, 'int16'), [('v', v2, ANYF)], 'packSnorm<glm::int16>(v)'))
